@@ -268,6 +268,7 @@ def main():
     rc = 0
     lines = []
     viol_paths = []
+    race_path = None
     race_info = None
     if cfg.get("race_pass"):
         race_info = race_pass(prop, cfg, tier, outdir)
@@ -280,7 +281,7 @@ def main():
             os.makedirs(rp, exist_ok=True)
             path = os.path.join(rp, "race_report.txt")
             open(path, "w").write(race_info["report"])
-            viol_paths.append(path)
+            race_path = path
             lines.append("data race reported by the free-running -race pass:\n" + race_info["report"][:1500])
     for v in m["violations"]:
         viol_paths.append(write_replay(prop, v))
@@ -294,6 +295,8 @@ def main():
             print("HARNESS-ERROR: the first violation does not reproduce from its replay file (rc=%d)" % outs[0][0])
             print(outs[0][1][-2000:])
             sys.exit(2)
+    if race_path:
+        viol_paths.append(race_path)
     for fid, hit in sorted(m["known"].items()):
         desc = next((k.get("description", "") for k in kf if k["id"] == fid), "")
         lines.append(f"KNOWN-FINDING: property={prop} {fid}: {desc} ({hit['count']} explored case(s) attributed)")
